@@ -51,6 +51,20 @@ def specEffective (chain : List Constraints) (got : Constraints) : Bool :=
 
 /-! ## resources -/
 
+/-- port `q` is in the (possibly absent) ports resource -/
+def omem (q : Nat) : Option Ranges → Bool
+  | none => false
+  | some ps => mem q ps
+
+/-- every range of the ports resource has begin ≤ end -/
+def OValid : Option Ranges → Bool
+  | none => true
+  | some ps => Valid ps
+
+def osize : Option Ranges → Nat
+  | none => 0
+  | some ps => size (normalize ps)
+
 /-- every port of `r` is in `ps` -/
 def rangeInside (ps : Ranges) (r : Range) : Bool :=
   (List.range' r.1 (r.2 + 1 - r.1)).all (fun p => mem p ps)
